@@ -79,6 +79,7 @@ def run(ctx):
             (dict(hosts=["10.0.0.1", "10.0.0.2"], rounds=14), 1),
             (dict(hosts=["10.0.0.1", "10.0.0.2", "fe80::1"], rounds=12, **small), 1),
             (dict(hosts=["10.0.0.1"], rounds=7, **small), 2),
+            (dict(hosts=["10.0.0.1"], rounds=6, subscriptions=True, behaviours=["ok", "ok-close-on-subscribe", "ok-reset-on-subscribe", "ok-bad-subscribe-reply", "auth-error"], triggers=["zc-same", "ensure", "drop", "close"]), 2),
             # from non-initial states: connected then dropped; authentication failed; closed then re-triggered
             (dict(hosts=["10.0.0.1", "10.0.0.2"], rounds=6, prelude=["ok|10.0.0.1|ok", "drop"], **small), 1),
             (dict(hosts=["10.0.0.1"], rounds=5, prelude=["ok|10.0.0.1|auth-error"], **small), 2),
@@ -91,6 +92,7 @@ def run(ctx):
             (dict(hosts=["10.0.0.1", "10.0.0.2", "fd00::1"], rounds=14), 1),
             (dict(hosts=["10.0.0.1", "10.0.0.2"], rounds=7, **small), 3),
             (dict(hosts=["10.0.0.1", "10.0.0.2"], rounds=8, prelude=["ok|10.0.0.1|ok", "drop"]), 2),
+            (dict(hosts=["10.0.0.1"], rounds=7, subscriptions=True), 2),
             (dict(hosts=["10.0.0.1"], rounds=6, prelude=["ok|10.0.0.1|auth-error"]), 2),
             (dict(hosts=["10.0.0.1"], rounds=8, prelude=["refuse", "timer", "refuse", "timer", "refuse", "close", "zc-same"]), 2),
             (dict(hosts=["10.0.0.1", "10.0.0.2", "fd00::1"], rounds=8, prelude=["ok|10.0.0.1|wrong-id", "ok|10.0.0.2|wrong-id"], **small), 2),
